@@ -51,6 +51,7 @@ func runBehaviour(t *testing.T, tr *vh.Trace, tid string, beh []Cmd) {
 		start := time.Now()
 		now := func() int { return int(time.Since(start) / time.Millisecond) }
 		held := map[int]*verif.QueueItem[string, int]{}
+		old := map[int]*verif.QueueItem[string, int]{} // handles that were already released / requeued
 		emit := func(l Line) {
 			l.Tid = tid
 			l.Now = now()
@@ -90,8 +91,18 @@ func runBehaviour(t *testing.T, tr *vh.Trace, tid string, beh []Cmd) {
 				}
 
 				held[c.W].Release()
+				old[c.W] = held[c.W]
 				delete(held, c.W)
 				emit(Line{Ev: "release", W: c.W, At: 0})
+			case "stale":
+				// Release / Requeue on a handle that was already released: no effect, no trace line
+				if old[c.W] != nil {
+					if c.D == 0 {
+						old[c.W].Release()
+					} else {
+						old[c.W].Requeue(start.Add(time.Duration(now()+int(unit/time.Millisecond)) * time.Millisecond))
+					}
+				}
 			case "requeue":
 				if held[c.W] == nil {
 					continue
@@ -99,6 +110,7 @@ func runBehaviour(t *testing.T, tr *vh.Trace, tid string, beh []Cmd) {
 
 				at := now() + c.D*int(unit/time.Millisecond)
 				held[c.W].Requeue(start.Add(time.Duration(at) * time.Millisecond))
+				old[c.W] = held[c.W]
 				delete(held, c.W)
 				emit(Line{Ev: "release", W: c.W, At: at})
 			case "sleep":
